@@ -1,6 +1,7 @@
 """CSV reading utilities for Vector/Table."""
 
 import csv
+import os
 from typing import TextIO
 
 
@@ -10,8 +11,8 @@ def read_csv(file, *, delimiter=',', has_header=True, encoding='utf-8'):
     
     Parameters
     ----------
-    file : str or file-like
-        Path to CSV file or file-like object
+    file : str, os.PathLike or file-like
+        Path to CSV file (a string or a path object such as pathlib.Path) or file-like object
     delimiter : str, default ','
         Field delimiter
     has_header : bool, default True
@@ -35,7 +36,7 @@ def read_csv(file, *, delimiter=',', has_header=True, encoding='utf-8'):
     from .vector import Vector
     
     # Handle file path vs file object
-    if isinstance(file, str):
+    if isinstance(file, (str, os.PathLike)):
         with open(file, 'r', encoding=encoding, newline='') as f:
             return _read_csv_from_file(f, delimiter=delimiter, has_header=has_header)
     else:
